@@ -7,11 +7,13 @@ import (
 	"github.com/tetratelabs/wazero/internal/engine/wazevo/backend"
 	"github.com/tetratelabs/wazero/internal/engine/wazevo/backend/regalloc"
 	"github.com/tetratelabs/wazero/internal/engine/wazevo/ssa"
+	"github.com/tetratelabs/wazero/internal/engine/wazevo/wazevoapi"
 )
 
 var (
 	_ regalloc.VReg
 	_ = backend.ABIArgKindStack
+	_ wazevoapi.ExitCode
 )
 
 // constPoolClean: no per-function constant-pool slot is remembered (each index is looked up lazily and
@@ -104,4 +106,15 @@ func scalarOrVec(t ssa.Type) bool {
 //@   requires cur != nil && result != nil && scalarOrVec(result.Type)
 //@   ensures[result-stored-at-full-width] isStoreInstr(r0) && movBytes(r0) == typeBytes(result.Type)
 //@   ensures[stack-result-loaded-at-full-width] result.Kind == backend.ABIArgKindStack ==> r0.prev != nil && isLoadInstr(r0.prev) && movBytes(r0.prev) == typeBytes(result.Type) && r0.prev.prev == cur
+//@   nosafety
+
+// The trampoline through which compiled code calls a Go (host) function copies every parameter into the
+// Go []uint64 with moves of the full width of the parameter's type: stated as the invariant of the parameter
+// loop - whatever was emitted before, after the iteration for a parameter the last instruction is a store of
+// that width, preceded (for a stack-passed parameter) by a load of that width.
+//@ func (m *machine) CompileGoFunctionTrampoline(exitCode wazevoapi.ExitCode, sig *ssa.Signature, needModuleContextPtr bool) []byte
+//@   ensures true
+//@   loop 0 (rangeindex int, cur *instruction, abi *backend.FunctionABI, argBegin int)
+//@     invariant abi != nil && -1 <= rangeindex && argBegin >= 0 && argBegin <= 2
+//@     invariant[each-parameter-moved-at-full-width] rangeindex >= 0 && argBegin+rangeindex < len(abi.Args) && scalarOrVec(abi.Args[argBegin+rangeindex].Type) ==> isStoreInstr(cur) && movBytes(cur) == typeBytes(abi.Args[argBegin+rangeindex].Type) && (abi.Args[argBegin+rangeindex].Kind != backend.ABIArgKindReg ==> cur.prev != nil && isLoadInstr(cur.prev) && movBytes(cur.prev) == typeBytes(abi.Args[argBegin+rangeindex].Type))
 //@   nosafety
